@@ -355,6 +355,24 @@ def _classify_reflective(prog: Program, mod, node: ast.Call, fname: str) -> tupl
                     fi = prog.enclosing_function(mod, node)
                     if fi is not None and fi.cls is not None and _literal_strings(fi.cls.class_attrs.get("_keys")) is not None:
                         return True, "getattr(self, key) guarded by `key in self._keys` (literal key set, members checked by C05.R3)"
+            # bound by iterating the literal key set itself: `for key in self._keys` / `{… for key in sorted(self._keys)}`
+            def _iterates_keys(it: ast.AST) -> bool:
+                while isinstance(it, ast.Call) and isinstance(it.func, ast.Name) and it.func.id in ("sorted", "tuple", "list", "iter", "frozenset", "set") and len(it.args) == 1 and not it.keywords:
+                    it = it.args[0]
+                return norm(it) == "self._keys"
+
+            for a in mod.ancestors(node):
+                binders = []
+                if isinstance(a, (ast.ListComp, ast.SetComp, ast.DictComp, ast.GeneratorExp)):
+                    binders = [(g.target, g.iter) for g in a.generators]
+                elif isinstance(a, (ast.For, ast.AsyncFor)) and any(node is x for b in a.body for x in ast.walk(b)):
+                    binders = [(a.target, a.iter)]
+                for tgt, it in binders:
+                    if isinstance(tgt, ast.Name) and tgt.id == key and _iterates_keys(it):
+                        fi = prog.enclosing_function(mod, node)
+                        rebound = fi is not None and any(isinstance(x, ast.Name) and x.id == key and isinstance(x.ctx, ast.Store) and x is not tgt for x in ast.walk(fi.node))
+                        if fi is not None and fi.cls is not None and not rebound and _literal_strings(fi.cls.class_attrs.get("_keys")) is not None:
+                            return True, "getattr(self, key) with key drawn from the literal key set self._keys (members checked by C05.R3)"
             return False, "getattr(self, <variable>) without a literal key-set guard"
         return False, "attribute name is not a constant"
     if fname == "compile":
